@@ -204,6 +204,31 @@ NEGATIVE = [
 ]
 
 
+# alias resolution, written from the property text: `alias.Func` reaches exactly the public function of that file; private and undefined
+# names, names of other files and names of the importing file itself are rejected behind an alias; an alias that is not imported is rejected
+_LIB1 = 'func Pub1() int {\n\treturn 1\n}\nfunc priv1() int {\n\treturn 2\n}\n'
+_LIB2 = 'func Pub2() int {\n\treturn 3\n}\nfunc priv2() int {\n\treturn 4\n}\n'
+_MAIN_HEAD = 'import (\n\tm "lib1.tsh"\n\tm2 "lib2.tsh"\n)\nfunc Own() int {\n\treturn 5\n}\nfunc own() int {\n\treturn 6\n}\n'
+_VALUES = {"Pub1": 1, "priv1": 2, "Pub2": 3, "priv2": 4, "Own": 5, "own": 6}
+
+
+def alias_matrix():
+    """(name, files, expected stdout or None when the program has to be rejected)"""
+    out = []
+    for alias in ("m", "m2", "x", ""):
+        for name in ("Pub1", "priv1", "Pub2", "priv2", "Own", "own", "Nope"):
+            ok = (alias, name) in (("m", "Pub1"), ("m2", "Pub2"), ("", "Own"), ("", "own"))
+            call = (alias + "." if alias else "") + name + "()"
+            for form, body in (("expr", "print(%s)\n" % call), ("in-func", "func w9() int {\n\treturn %s\n}\nprint(w9())\n" % call),
+                               ("stmt", "%s\nprint(0)\n" % call)):
+                exp = None
+                if ok:
+                    exp = ("0\n" if form == "stmt" else "%d\n" % _VALUES[name])
+                out.append(("alias-%s-%s-%s" % (alias or "none", name, form),
+                            {"main.tsh": _MAIN_HEAD + body, "lib1.tsh": _LIB1, "lib2.tsh": _LIB2}, exp))
+    return out
+
+
 def defined_before_use(script):
     """every function the script invokes is defined in it before its first call (text level)"""
     defined = set()
@@ -234,6 +259,19 @@ def run(res, b, tier, seed):
     for c in neg:
         if c.out.get("BASH", ("", ""))[0] != "ERR":
             fails.append((c, "negative-accepted", dict(cls=c.out.get("BASH", ("", ""))[0])))
+    # alias resolution matrix: rejected exactly when the property says so, accepted programs print the value of the function meant
+    am = [pipeline.Case("a" + name, {k: v.encode() for k, v in files.items()}, meta=dict(src=files["main.tsh"], expect=exp)) for name, files, exp in alias_matrix()]
+    pipeline.run_pipe(b, am, "as")
+    acc = [c for c in am if c.out.get("BASH", ("", ""))[0] == "OK"]
+    runs = common.pmap_proc(semcheck._exec, [(bytes.fromhex(c.out["BASH"][1]), b"") for c in acc])
+    got = {c.id: r for c, r in zip(acc, runs)}
+    for c in am:
+        cls = c.out.get("BASH", ("", ""))[0]
+        if c.meta["expect"] is None:
+            if cls != "ERR":
+                fails.append((c, "negative-accepted", dict(cls=cls, case=c.id, stdout=got[c.id]["stdout"].decode("latin1")[:200] if c.id in got else None)))
+        elif cls != "OK" or got[c.id]["stdout"].decode("latin1") != c.meta["expect"] or got[c.id]["status"] != 0:
+            fails.append((c, "alias-resolution", dict(cls=cls, case=c.id, want=c.meta["expect"], stdout=got[c.id]["stdout"].decode("latin1")[:200] if c.id in got else None)))
     for c in cases:
         if c.out.get("BASH", ("", ""))[0] == "OK":
             probs = defined_before_use(bytes.fromhex(c.out["BASH"][1]).decode("utf-8", "replace"))
@@ -258,7 +296,7 @@ def run(res, b, tier, seed):
         k = (len(c.files), len(c.meta["multipath"]) > 0)
         shapes[str(k)] = shapes.get(str(k), 0) + 1
     res.coverage.update(dict(
-        evaluations=len(cases) + len(neg),
+        evaluations=len(cases) + len(neg) + len(am),
         distinct_nontrivial=len({tuple(sorted(c.files.items())) for c in cases}),
         rule="random acyclic import graphs over 1-3 library files (chains, diamonds, the same file under two aliases, std + local), each library with "
              "public/private functions, public/private globals, optional top-level statements, top-level calls and a top-level loop, transitive "
